@@ -153,6 +153,7 @@ func Load(c LoadConfig) *Prog {
 	for _, pk := range p.ByPath {
 		walk(pk.Types)
 	}
+	p.computeTypeRenames() // before anything is named: every name goes through short()
 	p.index()
 	curProg = p
 	p.initTransparency()
@@ -165,7 +166,204 @@ func isRepoPath(path string) bool {
 
 // short abbreviates the module path to "rt" in a qualified name.
 func short(s string) string {
-	return strings.ReplaceAll(s, modPath, "rt")
+	s = strings.ReplaceAll(s, modPath, "rt")
+	if len(typeRenames) > 0 {
+		s = applyTypeRenames(s)
+	}
+	return s
+}
+
+// typeRenames maps the qualified name of a named type that is new to the baseline onto the baseline type it replaces
+// (same package, same shape, and the baseline name is gone): an unexported type was renamed. Computed once per loaded
+// program by (*Prog).computeTypeRenames; every name the rules see (types, methods, fields) goes through short().
+var typeRenames map[string]string
+
+func applyTypeRenames(s string) string {
+	for nw, old := range typeRenames {
+		for i := strings.Index(s, nw); i >= 0; {
+			end := i + len(nw)
+			isID := func(b byte) bool {
+				return b == '_' || b >= '0' && b <= '9' || b >= 'a' && b <= 'z' || b >= 'A' && b <= 'Z'
+			}
+			if (end < len(s) && isID(s[end])) || (i > 0 && (isID(s[i-1]) || s[i-1] == '/')) {
+				j := strings.Index(s[end:], nw)
+				if j < 0 {
+					break
+				}
+				i = end + j
+				continue
+			}
+			s = s[:i] + old + s[end:]
+			j := strings.Index(s[i+len(old):], nw)
+			if j < 0 {
+				break
+			}
+			i = i + len(old) + j
+		}
+	}
+	return s
+}
+
+// canonType renders a type without parameter names (so that a renamed parameter of a func type does not matter), with
+// the library's named types under their short qualified names.
+func canonType(t types.Type, depth int) string {
+	if depth > 6 {
+		return "…"
+	}
+	switch x := t.(type) {
+	case *types.Basic:
+		return x.Name()
+	case *types.Named:
+		if x.Obj() == nil {
+			return "?"
+		}
+		if x.Obj().Pkg() == nil {
+			return x.Obj().Name()
+		}
+		return strings.ReplaceAll(x.Obj().Pkg().Path(), modPath, "rt") + "." + x.Obj().Name()
+	case *types.Alias:
+		return canonType(types.Unalias(x), depth)
+	case *types.Pointer:
+		return "*" + canonType(x.Elem(), depth+1)
+	case *types.Slice:
+		return "[]" + canonType(x.Elem(), depth+1)
+	case *types.Array:
+		return fmt.Sprintf("[%d]%s", x.Len(), canonType(x.Elem(), depth+1))
+	case *types.Map:
+		return "map[" + canonType(x.Key(), depth+1) + "]" + canonType(x.Elem(), depth+1)
+	case *types.Chan:
+		return "chan " + canonType(x.Elem(), depth+1)
+	case *types.Signature:
+		var ps, rs []string
+		for i := 0; i < x.Params().Len(); i++ {
+			ps = append(ps, canonType(x.Params().At(i).Type(), depth+1))
+		}
+		for i := 0; i < x.Results().Len(); i++ {
+			rs = append(rs, canonType(x.Results().At(i).Type(), depth+1))
+		}
+		v := ""
+		if x.Variadic() {
+			v = "..."
+		}
+		return "func(" + strings.Join(ps, ",") + v + ")(" + strings.Join(rs, ",") + ")"
+	case *types.Struct:
+		var fs []string
+		for i := 0; i < x.NumFields(); i++ {
+			f := x.Field(i)
+			n := f.Name()
+			if f.Embedded() {
+				n = "~"
+			}
+			fs = append(fs, n+" "+canonType(f.Type(), depth+1))
+		}
+		return "struct{" + strings.Join(fs, ";") + "}"
+	case *types.Interface:
+		var ms []string
+		for i := 0; i < x.NumMethods(); i++ {
+			ms = append(ms, x.Method(i).Name()+canonType(x.Method(i).Type(), depth+1))
+		}
+		sort.Strings(ms)
+		return "interface{" + strings.Join(ms, ";") + "}"
+	}
+	return types.TypeString(t, nil)
+}
+
+// typeShapeLines lists, for the baseline inventory, every named type of the library with the canonical rendering of
+// its underlying type.
+func (p *Prog) typeShapeLines() []string {
+	var out []string
+	for _, pkg := range p.SSA.AllPackages() {
+		if pkg.Pkg == nil || !isRepoPath(pkg.Pkg.Path()) || isFixturePkg(pkg.Pkg.Path()) {
+			continue
+		}
+		sc := pkg.Pkg.Scope()
+		for _, name := range sc.Names() {
+			tn, ok := sc.Lookup(name).(*types.TypeName)
+			if !ok || strings.HasSuffix(p.Fset.Position(tn.Pos()).Filename, "_test.go") {
+				continue
+			}
+			out = append(out, fmt.Sprintf("\t%q: %q,", strings.ReplaceAll(pkg.Pkg.Path(), modPath, "rt")+"."+name, canonType(tn.Type().Underlying(), 0)))
+		}
+	}
+	sort.Strings(out)
+	return out
+}
+
+// computeTypeRenames fills typeRenames: a baseline type whose name no longer exists and exactly one new named type of
+// the same package whose underlying type has the same shape once every vanished / new type name is blanked out.
+func (p *Prog) computeTypeRenames() {
+	typeRenames = nil
+	if len(typeShapeInventory) == 0 {
+		return
+	}
+	cur := map[string]string{} // qualified name -> shape
+	pkgOf := map[string]string{}
+	for _, pkg := range p.SSA.AllPackages() {
+		if pkg.Pkg == nil || !isRepoPath(pkg.Pkg.Path()) || isFixturePkg(pkg.Pkg.Path()) {
+			continue
+		}
+		sc := pkg.Pkg.Scope()
+		pp := strings.ReplaceAll(pkg.Pkg.Path(), modPath, "rt")
+		for _, name := range sc.Names() {
+			tn, ok := sc.Lookup(name).(*types.TypeName)
+			if !ok || strings.HasSuffix(p.Fset.Position(tn.Pos()).Filename, "_test.go") {
+				continue
+			}
+			cur[pp+"."+name] = canonType(tn.Type().Underlying(), 0)
+			pkgOf[pp+"."+name] = pp
+		}
+	}
+	var gone, fresh []string
+	for n := range typeShapeInventory {
+		if _, ok := cur[n]; !ok {
+			gone = append(gone, n)
+		}
+	}
+	for n := range cur {
+		if _, ok := typeShapeInventory[n]; !ok {
+			fresh = append(fresh, n)
+		}
+	}
+	if len(gone) == 0 || len(fresh) == 0 {
+		return
+	}
+	sort.Strings(gone)
+	sort.Strings(fresh)
+	blank := func(s string, names []string) string {
+		byLen := append([]string{}, names...)
+		sort.Slice(byLen, func(i, j int) bool { return len(byLen[i]) > len(byLen[j]) }) // (a name may be a prefix of another)
+		for _, n := range byLen {
+			s = strings.ReplaceAll(s, n, "?")
+		}
+		return s
+	}
+	pkgPart := func(n string) string { return n[:strings.LastIndex(n, ".")] }
+	out := map[string]string{}
+	for _, g := range gone {
+		gs := blank(typeShapeInventory[g], gone)
+		var cands []string
+		for _, f := range fresh {
+			if pkgPart(f) == pkgPart(g) && blank(cur[f], fresh) == gs {
+				cands = append(cands, f)
+			}
+		}
+		if len(cands) != 1 {
+			continue
+		}
+		// the candidate must not be claimed by another vanished type
+		claimed := 0
+		for _, g2 := range gone {
+			if pkgPart(g2) == pkgPart(g) && blank(typeShapeInventory[g2], gone) == gs {
+				claimed++
+			}
+		}
+		if claimed == 1 {
+			out[cands[0]] = g
+		}
+	}
+	if len(out) > 0 {
+		typeRenames = out
+	}
 }
 
 func (p *Prog) index() {
@@ -216,6 +414,11 @@ func (p *Prog) index() {
 // "rt/middleware.NewRouter", "(*rt/middleware.Context).Respond", "rt/middleware.NewRouter$1".
 // An unresolved anchor is a tool error (undecided), never a verdict.
 func (p *Prog) Fn(name string) *ssa.Function {
+	if p.ti != nil {
+		if g := p.ti.delegate[name]; g != nil {
+			return g // the function the baseline body was moved into
+		}
+	}
 	f := p.fnIdx[name]
 	if f == nil && p.ti != nil {
 		f = p.ti.byOldName[name]
@@ -231,6 +434,11 @@ func (p *Prog) Fn(name string) *ssa.Function {
 
 // FnOpt is Fn without the failure.
 func (p *Prog) FnOpt(name string) *ssa.Function {
+	if p.ti != nil {
+		if g := p.ti.delegate[name]; g != nil {
+			return g
+		}
+	}
 	if f := p.fnIdx[name]; f != nil {
 		return f
 	}
@@ -619,7 +827,24 @@ func (p *Prog) involvesNovelty(f *ssa.Function) bool {
 		for g.Parent() != nil {
 			g = g.Parent()
 		}
-		return !inventory[short(g.String())]
+		if p.ti != nil {
+			if old, renamed := p.ti.alias[g]; renamed {
+				// a baseline function under a new name — unless its signature changed on the way
+				if sig, ok := sigInventory[old]; ok && sig != flatSig(g) {
+					return true
+				}
+				return false
+			}
+		}
+		name := short(g.String())
+		if !inventory[name] {
+			return true
+		}
+		// same name, different signature: what it takes and hands back is not what the rules were confirmed against
+		if sig, ok := sigInventory[name]; ok && sig != flatSig(g) {
+			return true
+		}
+		return false
 	}
 	var novelType func(t types.Type, depth int) string
 	novelType = func(t types.Type, depth int) string {
